@@ -183,3 +183,31 @@ def enum_e2():
 
 def nontrivial_fa(spec):
     return len(spec["trans"]) >= 2 and spec["starts"] and spec["finals"]
+
+
+def finite_language(spec):
+    """Graph test used only to select cases for the unbounded enumeration: among the states that are both
+    reachable from a start state and able to reach a final state, no cycle contains a labelled edge."""
+    k = vkey
+    succ, pred = {}, {}
+    for s, a, t in spec["trans"]:
+        succ.setdefault(k(s), set()).add(k(t))
+        pred.setdefault(k(t), set()).add(k(s))
+
+    def clos(init, m):
+        seen, todo = set(init), list(init)
+        while todo:
+            x = todo.pop()
+            for y in m.get(x, ()):
+                if y not in seen:
+                    seen.add(y)
+                    todo.append(y)
+        return seen
+    useful = clos([k(s) for s in spec["starts"]], succ) & clos([k(s) for s in spec["finals"]], pred)
+    for s, a, t in spec["trans"]:
+        if a is not None and k(s) in useful and k(t) in useful:
+            # labelled edge s->t inside the useful part: infinite iff t reaches s inside the useful part
+            sub = {x: {y for y in ys if y in useful} for x, ys in succ.items() if x in useful}
+            if k(s) in clos([k(t)], sub):
+                return False
+    return True
